@@ -214,7 +214,7 @@ def bind(ctx):
     ]
     for h, pats in table:
         fn = repo.func(AW + '.' + h)
-        r.check(pm.match(pats, body_without_doc(fn)) is not None, '%s resolves the callee by name and passes the parameters as keywords' % h,
+        r.check(pm.match_canon(pats, body_without_doc(fn)) is not None, '%s resolves the callee by name and passes the parameters as keywords' % h,
                 fn, construct=AW + '.' + h, key='invoke',
                 msg='%s no longer resolves its callee by the names in the node and calls it with **<evaluated parameter list>' % h)
     inv = repo.func(AW + '.accept_InvocationStatementNode')
@@ -232,7 +232,7 @@ def bind(ctx):
                 construct=INT + walker + '.__init__', key='kwargs-store', msg='%s.__init__ does not store kwargs' % walker)
     for walker in ('OperationWalker', 'DerivedAttributeWalker'):
         fn = repo.func(INT + walker + '.accept_SelfAccessNode')
-        r.check(pm.match(['return property(lambda: self.instance)'], body_without_doc(fn)) is not None, '%s: self is the receiving instance' % walker,
+        r.check(pm.match_canon(['return property(lambda: self.instance)'], body_without_doc(fn)) is not None, '%s: self is the receiving instance' % walker,
                 fn, construct=INT + walker + '.accept_SelfAccessNode', key='self', msg='%s.accept_SelfAccessNode does not yield self.instance' % walker)
         init = repo.func(INT + walker + '.__init__')
         r.check(pm.contains('self.instance = instance', init), '%s stores the receiver' % walker, init, construct=INT + walker + '.__init__',
